@@ -356,9 +356,10 @@ def storm_jobs(tier, seed):
     # N threads released from a spin barrier onto one probe position
     jobs += thr_jobs("storm", caps, seed + 9, 2 if tier == "quick" else 12, 1 if tier == "quick" else 4, cost=4)
     # randomised start/exit histories with an exact expectation after every step (holders = min(N, threads alive))
+    # (every second run single-steps claimers and exiting threads and stalls them at one instruction boundary)
     jobs += thr_jobs("handoff", [1, 2, 3, 8] if tier == "quick" else [1, 2, 3, 5, 8, 16, 64, BIG_CAP], seed + 21,
-                     3 if tier == "quick" else 12, 1 if tier == "quick" else 5, cost=6,
-                     extra=lambda rng, n, i: {"preempt": 1 if i % 3 == 2 else 0, "hang_s": 20})
+                     4 if tier == "quick" else 12, 1 if tier == "quick" else 5, cost=6,
+                     extra=lambda rng, n, i: {"preempt": 1 if i % 4 == 2 else 0, "step": i % 2, "hang_s": 20})
     return jobs
 
 
@@ -368,7 +369,9 @@ STORM_RULE = ("; in addition claim storms without injected delays: mode=churnsto
               "probe position, mode=handoff walks through random histories of thread starts and exits fired together "
               "from a spin gate with sub-microsecond skews (holder threads that keep their ID until told to exit, "
               "transient threads that claim and exit at once, table kept nearly full) and requires after every step "
-              "that min(N, holder threads alive) threads hold an ID")
+              "that min(N, holder threads alive) threads hold an ID; every second handoff run arms the CPU trap flag in "
+              "selected claimers / exiting threads at the probe hook / the first exit hook and stalls them for "
+              "3-120 us after a random number (1-220) of single instructions")
 
 
 def _id_check(prop, tier, seed, t0, caps_q, floors):
@@ -379,7 +382,8 @@ def _id_check(prop, tier, seed, t0, caps_q, floors):
     floors = dict(floors)
     floors.update({"churn_storm_workers": 20000, "storm_rounds": 5000, "handoff_steps": 50000,
                    "claims_that_filled_the_table_while_a_holder_exited": 3000,
-                   "exits_while_threads_were_waiting_for_an_id": 3000, "cascades_of_transient_claimers": 5000})
+                   "exits_while_threads_were_waiting_for_an_id": 3000, "cascades_of_transient_claimers": 5000,
+                   "stepper_stalls_at_single_instructions": 3000})
     return _mk(prop, tier, seed, t0, jobs, floors, rule=ID_RULE + STORM_RULE, assumptions=THR_ASSUME)
 
 
